@@ -91,7 +91,7 @@ class Model:
         return self
 
 
-def compare_model(model, out, fields_as="ordered", minmax="rows", rtol_minmax=0.0, time=True):
+def compare_model(model, out, fields_as="ordered", minmax="rows", rtol_minmax=0.0, time=True, computed=()):
     """Compare an expected Model with the reference read of a written plotfile.
 
     fields_as: 'ordered' -> same names in the same order; 'set' -> same names, any order (components
@@ -136,7 +136,13 @@ def compare_model(model, out, fields_as="ordered", minmax="rows", rtol_minmax=0.
                 v.append(f"level {l} box {k}: physical bounds {olev['phys'][b]} != {exp['phys']}")
                 break
             got = olev["data"][b][..., perm]
-            if not refread.same_bits(got, exp["data"]):
+            if computed:
+                # components computed by a recipe: bit-exact up to the payload of NaNs; copied components: bit-exact
+                cm = np.array([n in computed for n in model.fields])
+                same = refread.same_bits(got[..., ~cm], exp["data"][..., ~cm]) and refread.same_values(got[..., cm], exp["data"][..., cm])
+            else:
+                same = refread.same_bits(got, exp["data"])
+            if not same:
                 bad = np.argwhere(refread.bits(got) != refread.bits(exp["data"])) if got.shape == exp["data"].shape else []
                 where = f" first differing cell/component {tuple(bad[0])}: got {got[tuple(bad[0])]!r} expected {exp['data'][tuple(bad[0])]!r}" if len(bad) else f" shapes {got.shape} vs {exp['data'].shape}"
                 v.append(f"level {l} box {k}: data differs from the source box with the same index range;{where}")
